@@ -495,6 +495,16 @@ pub fn build(id: &str, tier: &str, seed: u64, threads: usize) -> Option<Plan> {
                     }
                 }
             }
+            // windows of more than 32768 blocks (more than half the 16-bit number space), fault-free, both roles
+            for (n, w) in [(70001u64, 40000u16), (65537, 65535), (40003, 40000)] {
+                for role in [Role::Send, Role::Recv] {
+                    cases.push({
+                        let mut s = base_spec(&Cfg { role, b: 8, w, len: (n - 1) * 8 + 3, hs: false, every: 0 }, seed);
+                        s.label = format!("hugewindow:{}w{}n{}", if role == Role::Send { "S" } else { "R" }, w, n);
+                        s
+                    });
+                }
+            }
             // a dozen windows behind the wrap: isolated losses (one per window) there must be tolerated like anywhere else
             let mut tails = Vec::new();
             for &w in if q { &[1u16, 7][..] } else { &[1u16, 3, 7, 64][..] } {
@@ -618,7 +628,7 @@ pub fn build(id: &str, tier: &str, seed: u64, threads: usize) -> Option<Plan> {
             Some(Plan {
                 cases,
                 judge: Arc::new(|s: &CaseSpec, o: &Outcome, an: &Analysis| {
-                    let mut findings = filter_rules(an, &["REPEAT", "E2E", "FINAL_CONTENT", "PANIC", "CONTENT"]);
+                    let mut findings = filter_rules(an, &["REPEAT", "E2E", "FINAL_CONTENT", "PANIC", "CONTENT", "FILE_AT_ACK", "ACK_UNSEEN"]);
                     let (f2, oop) = completion_findings_dup(s, o, an);
                     findings.extend(f2);
                     Judged { findings, out_of_premise: oop, inconclusive: None }
